@@ -410,8 +410,83 @@ let run_umem op t =
     (model, sp)
   end
 
+
+(* ---- bhist / bmon: the stored element count around the limits of size_type (ModelSize.v) ------------ *)
+let parse_cops (t : toks) : cop list =
+  let k = next_int t in
+  let ops = ref [] in
+  for _ = 1 to k do
+    let o = next_str t in
+    let push x = ops := x :: !ops in
+    (match o with
+     | "swp" -> push CSwap
+     | _ ->
+       let tg = b t in
+       (match o with
+        | "fil" -> let k = next_z t in let x = next_z t in push (CFill (tg, k, x))
+        | "pop" -> let k = next_z t in push (CPop (tg, k))
+        | "clr" -> push (CClear tg)
+        | "err" -> let f = next_z t in let l = next_z t in push (CErase (tg, f, l))
+        | "rsz" -> let n = next_z t in push (CResize (tg, n))
+        | "cpc" -> push (CCopyCtor tg)
+        | "mvc" -> push (CMoveCtor tg)
+        | "cpa" -> push (CCopyAssign tg)
+        | "mva" -> push (CMoveAssign tg)
+        | _ -> raise Not_found))
+  done;
+  List.rev !ops
+
+let run_big op t =
+  let family = next_str t in
+  let cap = next_z t in
+  let ops = parse_cops t in
+  let kind = match String.sub family 0 2 with
+    | "sv" -> KSv | "iv" -> KIv | "sk" -> KStack | "ss" -> KSet | "fs" -> KFlat | _ -> raise Not_found in
+  let fls = String.sub family 3 (String.length family - 3) in
+  let trivial = fls = "i" in
+  let fl = fls = "cm" in
+  let states = crun_code cap fl kind ops in
+  let obs_s o =
+    let ((n, pv), sum) = cobs o in
+    Printf.sprintf "%s %s %s" (str_of_z n) (zlist_s pv) (str_of_z sum) in
+  let tail s =
+    if trivial then "/ 0 0 0 0 0 0 w 1 a 0 0 0"
+    else
+      let c = s.s_w.w_cnt in
+      Printf.sprintf "/ %s %s %s %s %s %s w %s a %d %d 0" (str_of_z c.n_vc) (str_of_z c.n_cc) (str_of_z c.n_mc)
+        (str_of_z c.n_ca) (str_of_z c.n_ma) (str_of_z c.n_dt) (b2s s.s_w.w_ok) (List.length s.s_a.c_mem) (List.length s.s_b.c_mem) in
+  let stopped = List.exists (fun x -> x = None) states in
+  let some = List.filter_map (fun x -> x) states in
+  let last = match List.rev some with [] -> cst0 | s :: _ -> s in
+  let outside = List.exists (fun s -> not s.s_w.w_dom) some in
+  let okb s = if trivial then true else s.s_w.w_ok in
+  let sizes sts = String.concat "" (List.map (fun s -> Printf.sprintf " %s %s" (str_of_z s.s_a.c_size) (str_of_z s.s_b.c_size)) sts) in
+  if outside then ("outside-model", "na")
+  else if op = "bmon" then begin
+    let m =
+      if stopped then Printf.sprintf "contract wf %s" (b2s (okb last))
+      else
+        let f = cfinal last in
+        Printf.sprintf "sizes%s wf %s alive %s" (sizes some) (b2s (okb f)) (if trivial then "0" else str_of_z (alive_of f)) in
+    (* the property: the sizes of a count that is never converted to a narrower type, every call legal, nothing left alive *)
+    let ideal = crun_ideal cap fl kind ops in
+    let sp =
+      if List.exists (fun x -> x = None) ideal then "na"
+      else
+        let sts = List.filter_map (fun x -> x) ideal in
+        if List.exists (fun s -> not s.s_w.w_dom) sts then "na"
+        else Printf.sprintf "sizes%s wf 1 alive 0" (sizes sts) in
+    (m, sp)
+  end else begin
+    let body = String.concat " " (List.map (fun s -> Printf.sprintf "; ok %s %s %s" (obs_s s.s_a) (obs_s s.s_b) (tail s)) some) in
+    let sep = if body = "" then "" else " " in
+    if stopped then (Printf.sprintf "%s%s; contract ; stopped ; wf %s" body sep (b2s (okb last)), "na")
+    else (Printf.sprintf "%s%s; end %s" body sep (tail (cfinal last)), "na")
+  end
+
 let run_case op t =
   match op with
+  | "bhist" | "bmon" -> run_big op t
   | "uhist" | "umon" -> run_umem op t
   | "pcopy" -> run_pcopy t
   | "pown" -> run_pown t
